@@ -706,6 +706,14 @@ func merge(into, from http.Header) {
 	}
 	sort.Strings(keys)
 	for _, k := range keys {
+		if len(from[k]) == 0 {
+			// a key without values: what req.Header().Values(absent) or an
+			// announced, never-sent trailer of a forwarded response leaves behind
+			if _, ok := into[k]; !ok {
+				into[k] = nil
+			}
+			continue
+		}
 		for _, v := range from[k] {
 			into.Add(k, v)
 		}
